@@ -28,6 +28,7 @@ const (
 	ExclFloatToUintBig = "float-to-unsigned>=2^(w-1)"
 	ExclArrayEq        = "array-eq"
 	ExclStructEq       = "struct-eq"
+	ExclIntI32Iface    = "iface/int-i32-one-dynamic-type"
 )
 
 // Program is a generated program.
@@ -187,6 +188,14 @@ func (g *G) places(t *Type, write bool) []place {
 		case KStruct:
 			for _, f := range ty.Fields {
 				walk(sel(e, f.Name), f.T, w, root, d-1)
+				if f.Embedded && f.T.K == KStruct {
+					// promoted fields of the embedded struct (field names are unique program-wide)
+					for _, pf := range f.T.Fields {
+						if !pf.Embedded {
+							walk(sel(e, pf.Name), pf.T, w, root, d-1)
+						}
+					}
+				}
 			}
 		case KPtr:
 			for _, f := range ty.Elem.Fields {
